@@ -462,6 +462,24 @@ func init() {
 			for _, t := range c08PathHostile() {
 				kC08Lib.Do(c, t)
 			}
+			// something that cannot be compiled (undefined function / variable / label, bad arity) at every query position, alone
+			// and behind or before something that can: Compile reports it as a value wherever it meets it
+			for _, pos := range c01ScopePositions {
+				for qi, q := range c08Uncompilable {
+					src := strings.ReplaceAll(pos, "%Q", q)
+					kC08Lib.Do(c, c08Lib{SrcHex: hex.EncodeToString([]byte(src)), Input: run.TV{V: nil}, Var: run.TV{V: nil}})
+					if qi%4 == 0 {
+						src = "def ok: 1; " + strings.ReplaceAll(pos, "%Q", "ok") + " | " + src
+						kC08Lib.Do(c, c08Lib{SrcHex: hex.EncodeToString([]byte(src)), Input: run.TV{V: nil}, Var: run.TV{V: nil}})
+					}
+				}
+			}
+			// the same failing operation more than once in one run (what a Code keeps from the first failure meets the second)
+			for _, src := range c08Twice {
+				for _, w := range []string{"(\"a\", \"b\", \"a\") | %s", "[(\"a\", \"b\") | %s]", "\"a\" | (%s), (%s)", "[limit(3; repeat(\"a\" | %s))]", "reduce (1, 2, 3) as $i (\"a\"; (%s) | tostring)"} {
+					kC08Lib.Do(c, c08Lib{SrcHex: hex.EncodeToString([]byte(strings.ReplaceAll(w, "%s", src))), Input: run.TV{V: nil}, Var: run.TV{V: nil}})
+				}
+			}
 			// module loaders of every shape, modules that import each other in a circle
 			for _, t := range c08LoaderCases() {
 				kC08Loader.Do(c, t)
@@ -578,3 +596,11 @@ func c08PathHostile() []c08Lib {
 	}
 	return out
 }
+
+var c08Uncompilable = []string{"foo", "$undefined", "foo, 2", "2, foo", "try $x", "try foo", "try foo catch bar", "1 as $y | foo", "bar(1)", "def g: foo; g", "break $nolabel", "foo // 1", "1 // foo", "if foo then 1 else 2 end", "if 1 then foo else 2 end", "if 1 then 2 else foo, 3 end",
+	"if 1 then 2 else try $x end", "if 1 then 2 elif foo then 3 else 4 end", "[foo]", "{a: foo}", "{(foo): 1}", "reduce foo as $x (0; 1)", "reduce 1 as $x (foo; 1)", "foreach 1 as $x (0; foo; 1)", "label $l | foo", ".a = foo", "foo |= 1", "path(foo)", "first(foo)", "limit(foo; 1)", "\"\\(foo)\"", "@base64 \"\\($x)\"",
+	". as [$a] ?// $b | $a", ". as [$a] ?// [$b] | foo", "length(1)", "error(1; 2)", "input", "$__loc__", "foo::bar", "$m::x", "-foo", "foo as $x | 1", ". as $x | . as [$y] | $z", "def f(g): g(1); f(.)", "def f($a; $a): $b; f(1; 2)", "ltrimstr", "splits", "getpath", "env(1)", "builtins(1)", "input_line_number(1)", "@foo", "@base32d \"\\(foo)\""}
+
+var c08Twice = []string{"try test(\"(\") catch \"bad\"", "try [match(\"[\")] catch \"E\"", "try sub(\"(\"; \"x\") catch \"E\"", "[scan(\"(\")?]", "try capture(\"(?<a\") catch \"E\"", "try splits(\"*\") catch \"E\"", "try test(\"a\"; \"q\") catch \"E\"", "try gsub(\"\\\\\"; \"x\") catch \"E\"",
+	"try strptime(\"%\") catch \"E\"", "try strftime(\"%Q\") catch \"E\"", "try fromjson catch \"E\"", "try tonumber catch \"E\"", "try (\"m\" | modulemeta) catch \"E\"", "try input catch \"E\"", "try error catch \"E\"", "try @base64d catch \"E\"", "try implode catch \"E\"", "try ltrimstr(1) catch \"E\"",
+	"try getpath([\"a\"]) catch \"E\"", "try (.[0] = 1) catch \"E\"", "try (. as [$a] | $a) catch \"E\"", "try tojson catch \"E\"", "try (\"(\" as $re | test($re)) catch \"E\"", "try ascii catch \"E\"", "try todate catch \"E\"", "try (. * 1e9 | length) catch \"E\""}
